@@ -22,7 +22,6 @@
 //@item src/frontend/lexer.rs | struct | Token
 //@derive Clone, Copy
 //@end
-#[verifier::external_body] pub struct PrimaryExpression { _p: u8 }
 //@item src/frontend/parser.rs | enum | ParseErrorCode
 //@end
 //@item src/frontend/parser.rs | enum | ParseErrorLocation
